@@ -116,6 +116,14 @@ def check_refusals(case):
     common.expect_raises(lambda: D.permutation(perm, t), (Exception,),
                          "C10:length-mismatch-accepted",
                          "{} on {}".format(perm, t))
+    # an explicitly given empty domain is a domain of length 0
+    empty = specs.ty(cls, [])
+    common.expect_raises(lambda: D.permutation(list(range(n)), empty),
+                         (Exception,), "C10:length-mismatch-accepted",
+                         "{} on the empty type".format(list(range(n))))
+    d0 = D.permutation([], empty)
+    require(len(d0.dom) == 0 and len(d0.cod) == 0 and not d0.boxes,
+            "C10:empty-permutation", lambda: str(d0))
     if n >= 2:
         common.expect_raises(lambda: D.permutation(list(range(n - 1)), t),
                              (Exception,), "C10:length-mismatch-accepted",
